@@ -225,8 +225,8 @@ def show(ty, expr):
 def gen_main(module, name, header_text, script, imports_spec=None, instances=1, init_dump=False, children=None):
     """C text of the embedder for `script` = [(instance, export name bytes, [(ty, bits)])].
     children = {k: (parent, at)}: instance k is not instantiated at start-up but made by `parent`'s common.newChild (the emitted
-    <module>NewChild) right before script entry `at` (at = len(script): after the last call); it is given the parent's imported
-    objects by the resolver."""
+    <module>NewChild) right before script entry `at` (at = len(script): after the last call); the resolver gives it the parent's
+    imported memories and globals and a table of its own."""
     children = children or {}
     h = parse_header(header_text, module, name)
     gl = (imports_spec or {}).get("globals", {})
@@ -275,8 +275,10 @@ def gen_main(module, name, header_text, script, imports_spec=None, instances=1, 
             lim = im.desc.limits
             storage.append("static wasmTable imptab%d[NINST];" % n)
             alloc.append("    wasmTableAllocate(&imptab%d[k], %dU, %uU);" % (n, lim.min, lim.max if lim.max is not None else 4294967295))
-            resolve.append("  if (!strcmp(module, %s) && !strcmp(name, %s)) return &imptab%d[rescur];" % (c_string(im.module), c_string(im.field), n))
-            dumps.append('    OUT("b %%d %d %%d\\n", k, INST(k).%s == &imptab%d[impOwner[k]]);' % (n, h.table_imports[ti][1], n))
+            resolve.append("  if (!strcmp(module, %s) && !strcmp(name, %s)) return &imptab%d[cur];" % (c_string(im.module), c_string(im.field), n))
+            # (an imported table is never shared with a child: a wasm table entry is a closure over its defining instance, w2c2's is a C
+            #  function pointer called with the CALLER's instance — with a table shared between instances the two differ by design)
+            dumps.append('    OUT("b %%d %d %%d\\n", k, INST(k).%s == &imptab%d[k]);' % (n, h.table_imports[ti][1], n))
             ti += 1
         else:
             vt = im.desc.valtype
@@ -298,7 +300,7 @@ def gen_main(module, name, header_text, script, imports_spec=None, instances=1, 
     # table 0
     timp = [n for n, i in enumerate(module.imports) if i.kind == "table"]
     if timp:
-        dumps.append("    dumpTable(k, &imptab%d[impOwner[k]]);" % timp[0])
+        dumps.append("    dumpTable(k, &imptab%d[k]);" % timp[0])
     elif module.tables:
         dumps.append("    if (INST(k).%s.data != NULL || INST(k).%s.size == 0) dumpTable(k, &INST(k).%s);" % ((h.tables[0][1],) * 3))
     # memory 0
